@@ -25,6 +25,20 @@ CHECKS = {
                 note="Trusted: Framing.tla/AtomicFraming as reference; event rendering through the library's own Serialize for the real-vs-real comparison; TLC.",
                 tech="TLA+ Framing spec + TLC refinement check; replay of every explored chunking into the real code; TLC trace validation; real-vs-real bisimulation"),
 }
+CODEC_NOTE = ("Trusted: Codec.tla as the OASIS reference (transcribed from the specification texts, checked for internal consistency by TLC: "
+              "SizeOf = length of Enc, Remaining Length = body length); the harness's expansion of the reference's run-length segments for the byte comparison; TLC.")
+CHECKS["C02"] = dict(cat="model_checking", design="DESIGN.md section 4, C02",
+    text="Codec.tla defines the abstract packet domain (29 kinds, 16/32-bit ids, optional fields, properties, lengths on the boundary lattice); TLC enumerates it (pairwise quick, triples thorough), checks the reference for internal consistency and prints one vector per packet. codec-harness builds each with the public builders and records size(), both serialisations, the parse of the body, consumed and the accessor values; TLC (Trace_Codec.tla) recomputes sizes / Remaining Length and judges round-trip equality.",
+    note=CODEC_NOTE, tech="TLA+ reference codec + TLC enumeration of the packet domain; vectors replayed through the real builders/parsers; TLC trace validation")
+CHECKS["C03"] = dict(cat="model_checking", design="DESIGN.md section 4, C03",
+    text="Codec.tla's Enc is an independently written wire-format reference (OASIS MQTT 3.1.1 / 5.0). For every enumerated abstract packet the library's bytes must equal the reference bytes, and the reference bytes fed to the library's parser must give back the abstract field values through the public accessors; judged by TLC (Trace_Codec.tla).",
+    note=CODEC_NOTE, tech="TLA+ reference encoder as oracle; TLC-enumerated vectors; two-way comparison with the real codec judged by TLC")
+CHECKS["C04"] = dict(cat="exploration", design="DESIGN.md sections 4 and 5, C04",
+    text="Codec.tla generates semantic and byte-level mutants of valid encodings of every packet kind (TLC enumerates them) plus exhaustive short strings and seeded random inputs; every input is fed to the real parsers under catch_unwind; for every ACCEPTED input TLC judges size = serialisation length, re-parse equality, consumed <= input and the builder rules (ValidPacket). Panic-freedom is observed on these inputs, not proved.",
+    note=CODEC_NOTE + " Totality is an observation over the explored inputs only.", tech="TLA+-generated structured mutation space + exhaustive short strings; real parsers; TLC classification oracle")
+CHECKS["C18"] = dict(cat="model_checking", design="DESIGN.md section 4, C18",
+    text="Codec.tla holds the MQTT 5.0 property table (Allowed / Repeatable / forbidden values). TLC enumerates the whole finite table (14 locations x 27 properties x occurrence {1,2} x boundary values = 1792 cells, exhaustive in both tiers); for each cell the real builder and the real parser (fed the reference encoding) are asked, and TLC judges each answer against the table and builder = parser.",
+    note=CODEC_NOTE, tech="TLA+ property-placement table; exhaustive cell enumeration by TLC; builder and parser answers judged by TLC")
 for pid in ("C05", "C06", "C07", "C08", "C10", "C11", "C12", "C13", "C14", "C15", "C16", "C17", "C19"):
     CHECKS[pid] = dict(cat="model_checking", design="DESIGN.md section 4, %s" % pid, text=EP_TEXT, note=EP_NOTE, tech=EP_TECH)
 
